@@ -28,6 +28,8 @@ def main():
     nid = sys.argv[1]
     checks = ALL if sys.argv[2:] in ([], ["all"]) else sys.argv[2:]
     patch = "/tmp/neutral/out/%s.diff" % nid
+    if not os.path.exists(patch):
+        patch = os.path.join(VERIF, "neutral", nid, "patch.diff")
     desc = ""
     try:
         desc = open("/tmp/neutral/out/%s.txt" % nid).read()
@@ -46,6 +48,10 @@ def main():
            "verif_commit": sh("git rev-parse --short HEAD", VERIF)[1].strip()}
     try:
         rc, out = sh("git apply --check %s && git apply %s" % (patch, patch), wt)
+        if rc != 0:
+            # written against an earlier HEAD (fix: commits have landed since): three-way merge
+            rc, out = sh("git apply --3way %s && git reset -q" % patch, wt)
+            res["applied_3way"] = rc == 0
         res["applies"] = rc == 0
         if rc != 0:
             res["apply_error"] = out[-500:]
@@ -80,7 +86,7 @@ def main():
     shutil.copy(patch, os.path.join(dst, "patch.diff"))
     with open(os.path.join(dst, "description.txt"), "w") as f:
         f.write(desc)
-    json.dump(res, open(os.path.join(dst, "result.json"), "w"), indent=1)
+    json.dump(res, open(os.path.join(dst, os.environ.get("NEUTRAL_RESULT", "result.json")), "w"), indent=1)
     alarms = sorted(c for c, v in res.get("checks", {}).items() if v["exit"] != 0)
     print(json.dumps({"id": nid, "applies": res.get("applies"), "tests": res.get("tests_pass_with_change"), "alarms": alarms}))
     return 0
